@@ -626,14 +626,15 @@ func init() {
 }
 
 // ruleC32d (MP-C32d):
-//  (report) in cc/service.ModifyNamespace the value each per-proxy goroutine sends on the phase's error channel is, on
-//           every path, the result of that goroutine's last proxy.PrepareConfig / proxy.CommitConfig call: no nil is
-//           substituted after a call (an error answer "explained away" counts a proxy that did not switch as committed);
-//  (ack)    on the proxy, AdminServer.prepareConfig answers 200 only when the coordinator client was created and
-//           Server.ReloadNamespacePrepare (which reads the namespace from that client's store) returned nil;
-//           commitConfig answers 200 only on the nil-error edge of Server.ReloadNamespaceCommit; and
-//           Server.ReloadNamespacePrepare hands Manager.ReloadNamespacePrepare exactly what Store.LoadNamespace
-//           returned on its nil-error edge.
+//
+//	(report) in cc/service.ModifyNamespace the value each per-proxy goroutine sends on the phase's error channel is, on
+//	         every path, the result of that goroutine's last proxy.PrepareConfig / proxy.CommitConfig call: no nil is
+//	         substituted after a call (an error answer "explained away" counts a proxy that did not switch as committed);
+//	(ack)    on the proxy, AdminServer.prepareConfig answers 200 only when the coordinator client was created and
+//	         Server.ReloadNamespacePrepare (which reads the namespace from that client's store) returned nil;
+//	         commitConfig answers 200 only on the nil-error edge of Server.ReloadNamespaceCommit; and
+//	         Server.ReloadNamespacePrepare hands Manager.ReloadNamespacePrepare exactly what Store.LoadNamespace
+//	         returned on its nil-error edge.
 func ruleC32d(c *Ctx, r *Report) {
 	const rule = "MP-C32d"
 	r.floor(rule, 5)
@@ -649,7 +650,16 @@ func ruleC32d(c *Ctx, r *Report) {
 				continue
 			}
 			for _, phase := range []*ssa.Function{prep, comm} {
-				calls := callsIn(fn, func(cc *ssa.CallCommon) bool { return callsFunc(cc, phase) })
+				// the goroutine's phase calls, including those inside function literals it hands to a retry helper
+				var calls []ssa.Instruction
+				var gather func(f *ssa.Function)
+				gather = func(f *ssa.Function) {
+					calls = append(calls, callsIn(f, func(cc *ssa.CallCommon) bool { return callsFunc(cc, phase) })...)
+					for _, a := range f.AnonFuncs {
+						gather(a)
+					}
+				}
+				gather(fn)
 				if len(calls) == 0 {
 					continue
 				}
@@ -666,61 +676,13 @@ func ruleC32d(c *Ctx, r *Report) {
 					r.undecided(rule, name, cons, c.Pos(fn.Pos()), fmt.Sprintf("expected one send of the phase result per proxy goroutine, found %d", len(sends)))
 					continue
 				}
-				bad := ""
-				seen := map[ssa.Value]bool{}
-				var walk func(v ssa.Value, pred *ssa.BasicBlock)
-				walk = func(v ssa.Value, pred *ssa.BasicBlock) {
-					v = stripValue(v)
-					switch x := v.(type) {
-					case *ssa.Phi:
-						if seen[x] {
-							return
-						}
-						seen[x] = true
-						for i, e := range x.Edges {
-							walk(e, x.Block().Preds[i])
-						}
-						return
-					case *ssa.UnOp:
-						if x.Op == token.MUL {
-							if cell, ok := x.X.(*ssa.Alloc); ok {
-								if sts, _, ok := reachingStores(cell, x); ok && len(sts) > 0 {
-									for _, st := range sts {
-										if isNilConst(st.Val) {
-											for _, cl := range calls {
-												if st.Block() == cl.Block() && instrIndex(st) > instrIndex(cl) || (st.Block() != cl.Block() && blockReachable(cl.Block(), st.Block())) {
-													bad = "the error of " + phase.Name() + " is replaced by nil before it is reported"
-												}
-											}
-											continue
-										}
-										walk(st.Val, st.Block())
-									}
-									return
-								}
-							}
-						}
-					case *ssa.Const:
-						if x.IsNil() {
-							// a nil that enters after a phase call ran replaces that call's answer
-							for _, cl := range calls {
-								if pred != nil && (pred == cl.Block() || blockReachable(cl.Block(), pred)) {
-									// the edge from the call's own success test (err == nil -> break) carries the call result, not a constant
-									bad = "the error of " + phase.Name() + " is replaced by nil before it is reported"
-								}
-							}
-							return
-						}
-					case *ssa.Call:
-						for _, cl := range calls {
-							if cl == ssa.Instruction(x) {
-								return
-							}
-						}
+				var local []ssa.Instruction
+				for _, cl := range calls {
+					if cl.Parent() == fn {
+						local = append(local, cl)
 					}
-					bad = "a value other than the result of " + phase.Name() + " is reported for the proxy"
 				}
-				walk(sends[0].X, nil)
+				bad := reportsResultOf(c, sends[0].X, nil, local, calls, phase.Name(), 2)
 				if bad == "" {
 					r.ok(rule, name, cons, c.Pos(sends[0].Pos()), "each proxy goroutine reports the result of its last "+phase.Name()+" call unchanged")
 				} else {
@@ -843,4 +805,138 @@ func ruleC32d(c *Ctx, r *Report) {
 			}
 		}
 	}
+}
+
+// reportsResultOf decides that v is, on every path, the result of one of `calls` (instructions of v's function), never
+// a nil that replaces a call's answer; "" when it is, otherwise what is wrong. A nil constant on the nil-error edge of
+// one of the calls is that call's answer. A call to a package-private helper that receives a function literal is
+// followed (depth): the helper's result must be the result of its calls of that parameter and the literal's result the
+// result of its own phase calls (allCalls).
+func reportsResultOf(c *Ctx, v ssa.Value, at *ssa.BasicBlock, calls, allCalls []ssa.Instruction, phase string, depth int) string {
+	bad := ""
+	seen := map[ssa.Value]bool{}
+	isCall := func(x ssa.Value) bool {
+		for _, cl := range calls {
+			if cv, ok := cl.(*ssa.Call); ok && (ssa.Value(cv) == x || errResultOf(cv) == x) {
+				return true
+			}
+		}
+		return false
+	}
+	onNilEdgeOfCall := func(b *ssa.BasicBlock) bool {
+		if b == nil {
+			return false
+		}
+		for _, cl := range calls {
+			cv, ok := cl.(*ssa.Call)
+			if !ok {
+				continue
+			}
+			for _, e := range errNilEdgesOfCall(cv) {
+				if e.Val && edgesDominate(b.Parent(), []CondEdge{e}, b) {
+					return true
+				}
+			}
+		}
+		return false
+	}
+	var walk func(v ssa.Value, pred *ssa.BasicBlock)
+	walk = func(v ssa.Value, pred *ssa.BasicBlock) {
+		v = stripValue(v)
+		if isCall(v) {
+			return
+		}
+		switch x := v.(type) {
+		case *ssa.Phi:
+			if seen[x] {
+				return
+			}
+			seen[x] = true
+			for i, e := range x.Edges {
+				walk(e, x.Block().Preds[i])
+			}
+			return
+		case *ssa.UnOp:
+			if x.Op == token.MUL {
+				if cell, ok := x.X.(*ssa.Alloc); ok {
+					if sts, _, ok := reachingStores(cell, x); ok && len(sts) > 0 {
+						for _, st := range sts {
+							if isNilConst(st.Val) {
+								if onNilEdgeOfCall(st.Block()) {
+									continue
+								}
+								for _, cl := range calls {
+									if st.Block() == cl.Block() && instrIndex(st) > instrIndex(cl) || (st.Block() != cl.Block() && blockReachable(cl.Block(), st.Block())) {
+										bad = "the error of " + phase + " is replaced by nil before it is reported"
+									}
+								}
+								continue
+							}
+							walk(st.Val, st.Block())
+						}
+						return
+					}
+				}
+			}
+		case *ssa.Const:
+			if x.IsNil() {
+				if onNilEdgeOfCall(pred) {
+					return
+				}
+				// a nil that enters after a phase call ran replaces that call's answer
+				for _, cl := range calls {
+					if pred != nil && (pred == cl.Block() || blockReachable(cl.Block(), pred)) {
+						// the edge from the call's own success test (err == nil -> break) carries the call result, not a constant
+						bad = "the error of " + phase + " is replaced by nil before it is reported"
+					}
+				}
+				return
+			}
+		case *ssa.Call:
+			h := staticCallee(&x.Call)
+			if depth > 0 && h != nil && c.InModule(h) && len(h.Blocks) > 0 && h.Object() != nil && !h.Object().Exported() && errResultIndex(h.Signature) == 0 {
+				for k, a := range x.Call.Args {
+					mc, ok := stripValue(a).(*ssa.MakeClosure)
+					if !ok || k >= len(h.Params) {
+						continue
+					}
+					lit, _ := mc.Fn.(*ssa.Function)
+					if lit == nil || errResultIndex(lit.Signature) != 0 {
+						continue
+					}
+					var litCalls, paramCalls []ssa.Instruction
+					for _, cl := range allCalls {
+						if cl.Parent() == lit {
+							litCalls = append(litCalls, cl)
+						}
+					}
+					if len(litCalls) == 0 {
+						continue
+					}
+					allInstrs(h, func(in ssa.Instruction) {
+						if cv, ok := in.(*ssa.Call); ok && !cv.Call.IsInvoke() && stripValue(cv.Call.Value) == ssa.Value(h.Params[k]) {
+							paramCalls = append(paramCalls, cv)
+						}
+					})
+					if len(paramCalls) == 0 {
+						continue
+					}
+					for _, ret := range returnsOf(lit) {
+						if b := reportsResultOf(c, ret.Results[0], ret.Block(), litCalls, allCalls, phase, depth-1); b != "" {
+							bad = b
+						}
+					}
+					for _, ret := range returnsOf(h) {
+						if b := reportsResultOf(c, ret.Results[0], ret.Block(), paramCalls, nil, phase, 0); b != "" {
+							bad = b + " (in " + h.Name() + ")"
+						}
+					}
+					return
+				}
+			}
+		}
+		bad = "a value other than the result of " + phase + " is reported for the proxy"
+	}
+	walk(v, at)
+	return bad
 }
